@@ -6,7 +6,7 @@
 using namespace nix;
 using namespace vh;
 
-#define N_MISUSE 55
+#define N_MISUSE 66
 
 static void misuse(World &w, uint32_t op) {
     uint64_t i = nixsym_u64("index");                 // any 64-bit index
@@ -77,6 +77,25 @@ static void misuse(World &w, uint32_t op) {
     case 52: { w.ext.dataExtent(NDSize({0})); w.pos.dataExtent(NDSize({0})); std::vector<DataView> r = util::featureData(w.mtag, std::vector<ndsize_t>(), (ndsize_t)0); nixsym_assert(r.empty(), "no positions, no feature views"); break; }
     // validation of tags whose unit list is longer / shorter than the descriptors of what they reference
     case 53: { w.tag.units({"s", "ms", "s"}); w.tag_u.units({"s", "s"}); w.mtag.units({"s", "mV", "s"}); valid::Result r = w.f.validate(); (void)r; break; }
+    // dimension accessors with arbitrary indices, counts (bounded: the result is allocated) and column numbers
+    case 55: { uint32_t cnt = nixsym_u32("count"); nixsym_assume(cnt <= 64); std::vector<double> ax = w.da1.getDimension(1).asSampledDimension().axis((ndsize_t)cnt, (ndsize_t)i); nixsym_assert(ax.size() == cnt, "axis returns count coordinates"); break; }
+    case 56: { RangeDimension rd = w.da2.getDimension(2).asRangeDimension(); if (i & 1) { double t = rd.tickAt((ndsize_t)(i >> 1)); (void)t; } else { uint32_t cnt = nixsym_u32("count"); nixsym_assume(cnt <= 64); std::vector<double> ax = rd.axis((ndsize_t)cnt, (ndsize_t)(i >> 1)); nixsym_assert(ax.size() == cnt, "axis returns count ticks"); } break; }
+    case 57: { RangeDimension rd = w.da2.getDimension(2).asRangeDimension(); double p = nixsym_f64("p"), q = nixsym_f64("q"); std::vector<double> st = {p, q}, en = {q};
+               try { rd.indexOf(st, en, true, RangeMatch::Inclusive); } catch (const std::exception &) { } en.push_back(p); rd.indexOf(st, en, (i & 1) != 0, (i & 2) ? RangeMatch::Inclusive : RangeMatch::Exclusive); break; }
+    case 58: { DataFrameDimension fd = w.feat.getDimension(1).asDataFrameDimension(); unsigned c = (unsigned)i; uint32_t k = (uint32_t)(i >> 32) & 3;
+               if (k == 0) (void)fd.unit(c); else if (k == 1) (void)fd.label(c); else if (k == 2) (void)fd.columnDataType(c); else (void)fd.columnIndex(); break; }
+    // a data frame without columns, an array without elements, an array of rank 0
+    case 59: { DataFrame e = w.b.createDataFrame("empty", "t", std::vector<Column>{}); e.rows(2); (void)e.readRow(0); e.writeRow(1, std::vector<Variant>{}); (void)e.columns(); (void)e.readCell(0, 0u); break; }
+    case 60: { DataArray z = w.b.createDataArray("zero", "t", DataType::Double, NDSize({0})); std::vector<double> v; z.getData(v); nixsym_assert(v.empty(), "no elements"); v.push_back(1.0); z.appendData(DataType::Double, v.data(), NDSize({1}), 0); z.getData(v); nixsym_assert(v.size() == 1 && v[0] == 1.0, "appended element reads back"); z.dataExtent(NDSize({0})); z.getData(v); break; }
+    case 61: { DataArray z = w.b.createDataArray("rank0", "t", DataType::Double, NDSize{}); std::vector<double> v; z.getData(v); z.dataExtent(NDSize({2})); break; }
+    // tags whose position / extent lists do not fit each other or the data
+    case 62: { w.tag.position({}); w.tag.extent({1.0, 2.0, 3.0}); (void)util::taggedData(w.tag, (ndsize_t)0); break; }
+    case 63: { w.mtag.extents(none); w.mtag.positions(w.da2); std::vector<ndsize_t> idx = {(ndsize_t)(i & 3)}; (void)util::taggedData(w.mtag, idx, (ndsize_t)0); (void)util::featureData(w.mtag, idx, (ndsize_t)0); break; }
+    // empty keys
+    case 64: { (void)w.f.hasBlock(""); (void)w.b.hasDataArray(""); (void)w.b.getDataArray(""); (void)w.b.getSource(""); (void)w.f.getSection(""); (void)w.sec.getProperty(""); (void)w.tag.hasReference(""); (void)w.grp.hasDataArray(""); (void)w.b.deleteDataArray(""); (void)w.f.deleteBlock(""); break; }
+    // a view on everything, its extent setter, I/O at its far corner
+    case 65: { DataView v(w.da2, NDSize({2, 3}), NDSize({0, 0})); std::vector<int32_t> x(6); v.getData(DataType::Int32, x.data(), NDSize({2, 3}), NDSize({0, 0})); nixsym_assert(x[5] == 6, "whole-array view");
+               try { v.dataExtent(NDSize({1, 1})); } catch (const std::exception &) { } int32_t one = 0; v.getData(DataType::Int32, &one, NDSize({1, 1}), NDSize({(ndsize_t)(i & 3), (ndsize_t)((i >> 2) & 3)})); break; }
     }
 }
 
